@@ -49,6 +49,12 @@ BOUNDED = {
         statement="for a valid document the generated classes and their properties do not depend on the order of "
                   "components.schemas (parents after children, forward references, single-reference wrappers)",
         bound="two families of 4 schemas, all 24 orders each"),
+    "schema_accounting": dict(
+        unit=P + "properties:_create_schemas / _process_models (component accounting)", where="openapi_python_client/parser/properties/__init__.py",
+        statement="every object / enumeration component is a generated class or is named by a diagnostic, whatever the order "
+                  "and whichever components are broken, forward-referencing or colliding",
+        bound="ordered selections of 3 (all 504) and 4 (1500 sampled resp. all 3024) of 9 component kinds: good, forward alias, "
+              "target, broken enum, two objects with one class name, allOf child, dependant of the broken enum, enum"),
     "name_collision": dict(
         unit=P + "properties.enum_property:EnumProperty.build / model_property:ModelProperty.build (class name conflicts)",
         where="openapi_python_client/parser/properties/enum_property.py",
